@@ -172,7 +172,7 @@ func c16SeqMain(o *hx.Out, f hx.Flags) {
 				for j, np := 0, 1+crng.Intn(3); j < np; j++ {
 					switch x := crng.Intn(100); {
 					case x < 75: // sequence put
-						p := putOp{key: hx.Pick(crng, c16Prefixes), value: []byte(hx.Pick(crng, values)), part: pstr("pk")}
+						p := putOp{key: hx.Pick(crng, c16Prefixes), value: []byte(hx.Pick(crng, values)), part: pstr(hx.Pick(crng, []string{"pk", "pk", "pk", ""}))}
 						n := arity[p.key]
 						if n == 0 {
 							n = 1 + crng.Intn(3)
